@@ -17,6 +17,7 @@ EXPLANATION = (
     "that the running runtime uses the resolved value beyond key spelling; precedence inside program_options when an "
     "option occurs both in PIKA_COMMANDLINE_OPTIONS and on the command line.")
 ASSUMPTIONS = ["program_options::variables_map::count(k) > 0 iff option k was given", "${ENV:default} placeholders in the default ini are expanded by the ini module from the environment"]
+THOROUGH_CONFIGS = [["-UNDEBUG", "-DPIKA_DEBUG"]]
 FLOORS = {"C16.R1": 11, "C16.R2": 10, "C16.R3": 8, "C16.R4": 3}
 
 SETTINGS = [  # (command line option, ini key, environment variable, handler)
